@@ -335,7 +335,7 @@ def gen_l1(seed, idbase=0, nops=3000, nkeys=300, nb=("BucketsSize", 64), kt="byt
     return s
 
 
-def gen_reloc(seed, idbase=0, nops=150, width=16384, nkeys=5, name="reloc", kt="bytes", snap=False):
+def gen_reloc(seed, idbase=0, nops=150, width=16384, nkeys=5, name="reloc", kt="bytes", snap=False, iter_every=0, kballast=1):
     """C08: colliding keys whose records exactly fill their slots, free slots below and file ends
     above an offset-width boundary, so that overwrites move value records, key records and the
     predecessors' key records (relink cascades); decoded state after every update."""
@@ -367,17 +367,38 @@ def gen_reloc(seed, idbase=0, nops=150, width=16384, nkeys=5, name="reloc", kt="
     bk = s.key_in_bucket(min(width - 80, 60000), n, 1)
     bv = s.newval(width - 80)
     s.op("put", h=1, k=bk, v=bv)
+    # kballast > 1: the KEY file passes 128 KiB as well (links to records up there are 3 bytes wide)
+    bks = [bk]
+    for _ in range(kballast - 1):
+        bks.append(s.key_in_bucket(60000, n, 1))
+        s.op("put", h=1, k=bks[-1], v=vids[0])
     s.op("decode", **dec)
     allk = keys + extra
+    order = list(reversed(keys))            # chain of bucket 0, head first (a new key becomes the head)
     for i in range(nops):
         r = rng.random()
         k = rng.choice(allk)
-        if r < 0.90 and rng.random() < 0.3:
+        if order and rng.random() < 0.08:
+            # a lookup of the chain head, then new keys in front of it, then the looked-up key is deleted or
+            # overwritten by a relocating value: whatever the lookup remembered is stale by then
+            hk = order[0]
+            s.op("includes", h=1, k=hk)
+            for nk in [x for x in allk if x not in order][:rng.randrange(1, 3)]:
+                s.op("put", h=1, k=nk, v=vids[0])
+                order.insert(0, nk)
+                s.op("decode", **dec) if not snap else None
+            k = hk
+            r = rng.choice([0.7, 0.1])
+        elif r < 0.90 and rng.random() < 0.3:
             s.op("includes", h=1, k=k)          # the key about to be updated was looked up just before
         if r < 0.62:
             s.op("put", h=1, k=k, v=rng.choice(vids))
+            if k not in order:
+                order.insert(0, k)
         elif r < 0.90:
             s.op("del", h=1, k=k)
+            if k in order:
+                order.remove(k)
         elif r < 0.95:
             s.op("get", h=1, k=rng.choice(allk))
             continue
@@ -391,11 +412,13 @@ def gen_reloc(seed, idbase=0, nops=150, width=16384, nkeys=5, name="reloc", kt="
             # C03: flush only (no decode, which would flush as well), then the directory as a crash would leave it
             s.op(rng.choice(["flush", "flush", "sync_data"]), h=1)
             s.op("copy_dir", **{"from": "d", "to": "snap"})
-            s.op("child_dump", dir="snap", name="m", kt=kt, ks=allk + [bk], **{"as": "C03.snapshot"})
+            s.op("child_dump", dir="snap", name="m", kt=kt, ks=allk + bks, **{"as": "C03.snapshot"})
             s.op("decode", dir="snap", name="m", native=True)
             s.op("rm_dir", dir="snap")
         else:
             s.op("decode", **dec)
+        if iter_every and i % iter_every == 0:
+            s.op("iter", h=1, flavour=rng.choice(FLAVOURS))
         if i % 10 == 9:
             s.op("dump", h=1)
             s.op("stats", h=1)
@@ -1636,6 +1659,58 @@ def gen_keysweep(seed, idbase=0, klens=None, kt="bytes", name="keysweep"):
         s.op("del", h=1, k=sb)
     s.op("new_process")
     s.op("decode", dir="d", name="m", native=True)
+    return s
+
+
+def gen_linkwidth(seed, idbase=0, pklen=18, nfill=3, name="linkwidth", kt="bytes"):
+    """C09/C08: a chain P -> D -> X in one bucket where X lives above 128 KiB of the key file (its link takes
+    3 bytes), D in a re-used slot at the start of the file (2 bytes were estimated for the link to it) and P's
+    record exactly fills its slot; D is deleted, so P's link widens - P has to move (or the record no longer
+    fits its slot).  Then the neighbours behind P are read and rewritten."""
+    rng = random.Random(seed)
+    s = Script(idbase, design=True, name=name)
+    n = 2
+    s.op("open_db", db=0, dir="d")
+    s.op("map", h=1, db=0, name="m", kt=kt, params={"buckets": ["BucketsSize", n]})
+    dec = dict(dir="d", name="m", flush_h=1, native=True)
+    v3, v10, v900, v100 = s.newval(3), s.newval(10), s.newval(900), s.newval(100)
+    d0 = s.key_in_bucket(30, n, 1)
+    s.op("put", h=1, k=d0, v=v3)                       # a low 48-byte slot, freed again below
+    s.op("put", h=1, k=s.key_in_bucket(12, n, 1), v=v900)   # the value file passes 1 KiB
+    fill = [s.key_in_bucket(60000, n, 1) for _ in range(nfill)]
+    for k in fill:
+        s.op("put", h=1, k=k, v=v3)                    # the key file passes 128 KiB
+    x = s.key_in_bucket(20, n, 0)
+    s.op("put", h=1, k=x, v=v10)                       # X: appended above 128 KiB
+    s.op("del", h=1, k=d0)
+    d = s.key_in_bucket(30, n, 0)
+    s.op("put", h=1, k=d, v=v3)                        # D: re-uses the low slot, head of the chain
+    s.op("decode", **dec)
+    pk = s.key_in_bucket(pklen, n, 0)
+    s.op("put", h=1, k=pk, v=v10)                      # P: exactly fills its slot while it links to D
+    nb1, nb2 = s.key_in_bucket(10, n, 1), s.key_in_bucket(10, n, 1)
+    s.op("put", h=1, k=nb1, v=v3)                      # the pieces stored behind P
+    s.op("put", h=1, k=nb2, v=v3)
+    s.op("decode", **dec)
+    s.op("dump", h=1)
+    s.op("del", h=1, k=d)                              # P now links to X
+    s.op("decode", **dec)
+    for k in (pk, x, nb1, nb2):
+        s.op("get", h=1, k=k)
+    s.op("put", h=1, k=nb1, v=v100)                    # the neighbour is rewritten (its value moves)
+    s.op("decode", **dec)
+    s.op("put", h=1, k=nb2, v=v100)
+    s.op("decode", **dec)
+    s.op("dump", h=1)
+    s.op("iter", h=1, flavour="iter")
+    # and the other way round: the link narrows again
+    s.op("put", h=1, k=d, v=v3)
+    s.op("del", h=1, k=pk)
+    s.op("decode", **dec)
+    s.op("dump", h=1)
+    s.op("new_process")
+    s.op("decode", dir="d", name="m", native=True)
+    s.op("child_dump", dir="d", name="m", kt=kt)
     return s
 
 
